@@ -403,7 +403,7 @@ Loop(s, c) == LET r == Iter(s, c) IN IF r.done THEN r.s ELSE Loop(r.s, r.c)
 \* A description of the iteration Iter(s, c) is about to run; the sequence of these over a call
 \* is the call's SIGNATURE, used only to classify behaviours for replay (coverage classes).
 IterTag(s, c) ==
-  CASE s.phase = "Sleep" -> <<"wake">>
+  CASE s.phase = "Sleep" -> <<"wake", Count(s)>>
     [] s.phase = "Mark" ->
          IF s.gray # <<>> \/ s.grayAgain # <<>> THEN
            LET o == IF s.gray # <<>> THEN Last(s.gray) ELSE Last(s.grayAgain) IN
